@@ -106,6 +106,13 @@ def check_snapshot(model, rep):
             st.heap[('el', 'name')] = Sv('el')
             frame = {'module': m.module, 'cls': 'Powertrain', 'fn': m.node, 'depth': 0}
             try:
+                # constant mappings bound before the frame is created (the variable -> unit-parameter dict) are part of the context
+                pre_maps = [n for n in body[:frames[0]] if isinstance(n, ast.Assign) and isinstance(n.value, ast.Dict)
+                            and len(n.targets) == 1 and isinstance(n.targets[0], ast.Name)]
+                if pre_maps:
+                    pre_outs = [o for o in sx.block(pre_maps, [st], frame) if o.kind == 'fall']
+                    if len(pre_outs) == 1:
+                        st = pre_outs[0].state
                 outs = sx.block(tail, [st], frame)
             except CannotDecide as e:
                 rep.cannot('C18.own-guard', f'Powertrain.snapshot[{v}]', f'{e} (element class {cls})', m.loc)
@@ -320,10 +327,15 @@ def check_initial_columns(model, rep, m):
     needed = []
     names = {x.id for x in ast.walk(kw['columns']) if isinstance(x, ast.Name)}
     for n in reversed(body[:body.index(frames[0])]):
-        if isinstance(n, ast.Assign) and len(n.targets) == 1 and isinstance(n.targets[0], ast.Name) and n.targets[0].id in names \
-                and n.targets[0].id != 'variables':
+        # statements that give one of the needed names its value: assignments, and loops / calls that fill a list in place
+        stored = {x.id for x in ast.walk(n) if isinstance(x, ast.Name) and isinstance(x.ctx, ast.Store)}
+        filled = {c.func.value.id for c in ast.walk(n) if isinstance(c, ast.Call) and isinstance(c.func, ast.Attribute)
+                  and c.func.attr in ('append', 'extend', 'insert') and isinstance(c.func.value, ast.Name)}
+        hit = ((stored & names) and isinstance(n, (ast.Assign, ast.AugAssign))) or \
+            ((filled & names) and isinstance(n, (ast.For, ast.Expr, ast.If)))
+        if hit and 'variables' not in (stored if isinstance(n, (ast.Assign, ast.AugAssign)) else set()):
             needed.insert(0, n)
-            names |= {x.id for x in ast.walk(n.value) if isinstance(x, ast.Name)}
+            names |= {x.id for x in ast.walk(n) if isinstance(x, ast.Name) and isinstance(x.ctx, ast.Load)}
     try:
         outs = [o for o in sx.block(needed, [st], frame) if o.kind == 'fall']
         if len(outs) != 1:
